@@ -271,7 +271,10 @@ def run(ctx):
         cases = corpus()
         for _ in range(n):
             cases.append(gen_new(rng) if rng.random() < 0.5 else gen_old(rng))
+    import time
+    t_start = time.time()
     impl = core.run_impl_parallel("impl_c06.py", cases)
+    t_impl = time.time() - t_start
     terms, owner = [], []
     failures, mismatches, errors = [], [], []
     hist = {"api": {}, "kind": {}, "style": {}, "tty": {}, "frames": {}, "loops": {}, "raised": 0, "accepted": 0, "cache": {}}
@@ -306,7 +309,9 @@ def run(ctx):
             distinct.add(core.sig([c.get("padding", c.get("pad")), c.get("size", c.get("cells")), st, c["term_size"],
                                    len(frames), c.get("tty", True), c.get("args"), c.get("term"), c.get("kitty_version")]))
     if terms:
+        t_coq0 = time.time()
         bad, errs = core.coq_shards("c06", HEADER, terms, "dcase", "bad cases", shard=12 if ctx.quick else 40)
+        t_coq = time.time() - t_coq0
         errors += errs
         for idx, code in bad:
             i = owner[idx]
@@ -345,4 +350,5 @@ def run(ctx):
                         "start state: clean protocol state, default attributes, cursor at the left margin (lm = 0)",
                         "terminal conventions of lib/Term.v and lib/TermScroll.v (images hanging below the window are kept and scroll into view)"],
         "trusted": ["harness/lexer.py", "pty line discipline with OPOST off delivers the written bytes unchanged"],
+        "extra": {"seconds_impl": round(t_impl, 1), "seconds_coq_eval": round(t_coq, 1) if terms else 0},
     }
